@@ -33,17 +33,26 @@ def gen_project(rng, i):
     p = proggen.gen_program(rng, rich=rich, style="check", nsites=rng.randint(1, 5), opts=opts, layout={"per_test": rng.choice([1, 2])})
     p["flags"] = rng.choice(proggen.flag_subsets())
     p["rich"] = rich
+    p["files"] = {"test_something.py": p["source"]}
+    if i % 3 == 1:
+        # several test files (what one category changes may lie in another file than what another one changes); a part of them in
+        # asserting style, so that a failing comparison ends its test (and nothing else)
+        for name in ["test_b.py", "test_c.py"][: rng.randint(1, 2)]:
+            q = proggen.gen_program(rng, rich=False, style=rng.choice(["check", "assert"]), nsites=rng.randint(1, 3), opts=opts, layout={"per_test": 1})
+            p["files"][name] = q["source"]
+            p["sites"] = p["sites"] + q["sites"]
     if i % 6 == 0:
         # the test module does not import HasRepr itself: generated code that needs it makes the drivers add the import
         p["source"] = p["source"].replace("from inline_snapshot import snapshot, Is, HasRepr, external, outsource", "from inline_snapshot import snapshot, Is")
         p["flags"] = ("create", "fix")
+        p["files"]["test_something.py"] = p["source"]
     return p
 
 
 def run_inline(prog):
     """Example.run_inline in this process"""
     from inline_snapshot.testing import Example
-    files = {"test_something.py": prog["source"]}
+    files = dict(prog.get("files") or {"test_something.py": prog["source"]})
     args = [f"--inline-snapshot={','.join(prog['flags'])}"] if prog["flags"] else []
     cats, raises = Rec(), Rec()
     buf = io.StringIO()
@@ -57,7 +66,7 @@ def run_inline(prog):
 
 def run_helper_pytest(prog):
     from inline_snapshot.testing import Example
-    files = {"test_something.py": prog["source"]}
+    files = dict(prog.get("files") or {"test_something.py": prog["source"]})
     args = [f"--inline-snapshot={','.join(list(prog['flags']) + ['report'])}"]
     rc, report = Rec(), Rec()
     buf = io.StringIO()
@@ -72,9 +81,10 @@ def run_helper_pytest(prog):
 def run_raw(prog):
     d = driver.scratch_dir()
     try:
-        driver.write_project(d, {"test_something.py": prog["source"]})
+        files = dict(prog.get("files") or {"test_something.py": prog["source"]})
+        driver.write_project(d, files)
         r = driver.run_pytest(d, [f"--inline-snapshot={','.join(list(prog['flags']) + ['report'])}"])
-        return {"files": {"test_something.py": (d / "test_something.py").read_text()}, "stdout": r["stdout"], "rc": r["rc"], "stderr": r["stderr"][-500:]}
+        return {"files": {n: (d / n).read_text() for n in files}, "stdout": r["stdout"], "rc": r["rc"], "stderr": r["stderr"][-500:]}
     finally:
         shutil.rmtree(d, ignore_errors=True)
 
@@ -119,7 +129,7 @@ def classify(prog, o):
 
 def run(ctx: Ctx):
     ctx.coverage["rule"] = (
-        "test projects without externals (1-5 snapshot sites over the simple and the rich value universe, recorded comparisons) x random category subsets: "
+        "test projects without externals (1-3 test files, 1-5 snapshot sites each over the simple and the rich value universe, comparisons recorded or asserted) x random category subsets: "
         "Example.run_inline, Example.run_pytest and a raw `python -m pytest --inline-snapshot=<flags>,report` session in a scratch directory; the three resulting test files "
         "must be identical and the reported pending categories must coincide; the applied set is compared with Model/Flags.v (inline_applied vs applied) in Coq. "
         "non-trivial = >= 2 sites and at least one category approved")
@@ -136,9 +146,10 @@ def run(ctx: Ctx):
         ctx.dist("flags=" + (",".join(p["flags"]) or "none"))
         errs = [f"{k}: {v['error']}" for k, v in o.items() if "error" in v]
         if errs:
-            ctx.report("C19: a driver failed: " + "; ".join(errs), {"kind": "proj", "source": p["source"], "flags": p["flags"]}, tag=classify(p, o))
+            ctx.report("C19: a driver failed: " + "; ".join(errs), {"kind": "proj", "source": p["source"], "files": p.get("files"), "flags": p["flags"]}, tag=classify(p, o))
             continue
-        fi, fh, fr = (o[k]["files"].get("test_something.py") for k in ("inline", "helper", "raw"))
+        names = sorted(p.get("files") or {"test_something.py": 0})
+        fi, fh, fr = ({n: o[k]["files"].get(n) for n in names} for k in ("inline", "helper", "raw"))
         ci = sorted(o["inline"]["categories"] or [])
         ch = cats_from_report(o["helper"]["report"] or "")
         cr = cats_from_report(o["raw"]["stdout"])
@@ -149,11 +160,12 @@ def run(ctx: Ctx):
         elif not (ci == ch == cr):
             why = f"reported categories differ: run_inline {ci}, run_pytest {ch}, raw pytest {cr}"
         if why:
-            ctx.report("C19 oracle: " + why, {"kind": "proj", "source": p["source"], "flags": p["flags"], "inline": fi, "raw": fr}, tag=classify(p, o))
+            ctx.report("C19 oracle: " + why, {"kind": "proj", "source": p["source"], "files": p.get("files"), "flags": p["flags"], "inline": fi, "raw": fr}, tag=classify(p, o))
             continue
         # which categories were applied (pending and the file changed accordingly) vs the model of both drivers
         pend = {c: c in cr for c in CATS}
-        terms.append(g_pair(g_list(p["flags"], lambda f: FLAGC[f]), g_pair(*(g_bool(pend[c]) for c in CATS)), g_bool(fi != p["source"]), g_bool(fr != p["source"])))
+        orig = dict(p.get("files") or {"test_something.py": p["source"]})
+        terms.append(g_pair(g_list(p["flags"], lambda f: FLAGC[f]), g_pair(*(g_bool(pend[c]) for c in CATS)), g_bool(fi != orig), g_bool(fr != orig)))
     bad = coq_eval_shards(ctx, "drivers", "Model.Flags Corr.DriversCorr", "case", terms, "mismatches")
     ctx.coverage["traces_validated_against_impl"] += len(terms)
     ctx.coverage["correspondence"]["drivers"] = {"projects": len(terms), "mismatches": len(bad)}
@@ -166,9 +178,10 @@ def replay(ctx: Ctx, data):
     c = data["case"]
     if c.get("kind") != "proj":
         return True
-    o = run_all({"source": c["source"], "flags": tuple(c["flags"])})
+    o = run_all({"source": c["source"], "files": c.get("files"), "flags": tuple(c["flags"])})
     if any("error" in v for v in o.values()):
         print(o)
         return False
-    fi, fh, fr = (o[k]["files"].get("test_something.py") for k in ("inline", "helper", "raw"))
+    names = sorted(c.get("files") or {"test_something.py": 0})
+    fi, fh, fr = ({n: o[k]["files"].get(n) for n in names} for k in ("inline", "helper", "raw"))
     return fi == fh == fr
